@@ -187,6 +187,9 @@ def c31Run (op : String) (ticks : List String) : Option String :=
   | "state_prev_last" => do
     let h ← ticks.mapM parseItems
     pure ("|".intercalate ((runSliced prevLastBody none (runBatches [] (prodSchedule h)).1).map showOptInt))
+  | "state_opt_keep" => do
+    let h ← ticks.mapM parseItems
+    pure ("|".intercalate ((runSlicedInit optKeepBody optKeepInit true none (runBatches [] (prodSchedule h)).1).map showOptInt))
   | "lookup_counts" => do
     let h ← ticks.mapM splitTwo
     let incs ← h.mapM (fun p => parsePairs p.1)
